@@ -120,10 +120,57 @@ def pick_op(ctx, cs, dim, lmin):
     return [10 ** 6] * dim, "huge"
 
 
-def run_history(ctx, drv, dim, lmin, lmax, ops=None, nops=0, obs_seed=None):
+def run_prelude(ctx, drv, pre):
+    """object history: an earlier adaptive scheme (possibly with other levels) on an object that is then either
+    re-initialised for the main history (mode 'reinit') or kept alive next to it (mode 'sibling')"""
+    from sparseSpACE.combiScheme import CombiScheme
+    cs = CombiScheme(pre["dim"])
+    cs.init_adaptive_combi_scheme(pre["lmax"], pre["lmin"])
+    drv.ask("init %d %d %d" % (pre["dim"], pre["lmax"], pre["lmin"]))
+    for lv in pre["ops"]:
+        cs.update_adaptive_combi(list(lv))
+        drv.ask("upd " + vec_str(lv))
+    if pre.get("full_grid"):
+        cs.init_full_grid(pre["lmax"], pre["lmin"])     # documented as "plotting only"; it must not leak into a later init
+    return cs, drv.ask("state"), drv.ask("scheme")
+
+
+def gen_prelude(ctx, dim, lmin, lmax):
+    r = ctx.rng
+    same = r.random() < 0.5
+    pl, ph = (lmin, lmax) if same else (r.choice([0, 1, 2, 3]), None)
+    if ph is None:
+        ph = pl + r.randint(0, 3)
+    pre = {"dim": dim, "lmin": pl, "lmax": ph, "ops": [], "mode": r.choice(["reinit", "sibling"]), "full_grid": r.random() < 0.15}
+    from sparseSpACE.combiScheme import CombiScheme
+    tmp = CombiScheme(dim)
+    tmp.init_adaptive_combi_scheme(ph, pl)
+    for _ in range(r.randint(0, 4)):
+        act = sorted(tmp.active_index_set)
+        if not act:
+            break
+        lv = list(r.choice(act))
+        tmp.update_adaptive_combi(lv)
+        pre["ops"].append(lv)
+    if pre["mode"] == "sibling":
+        pre["full_grid"] = False
+    return pre
+
+
+def run_history(ctx, drv, dim, lmin, lmax, ops=None, nops=0, obs_seed=None, prelude=None):
     """returns (ok, executed ops); ops=None: draw them from the rng"""
     from sparseSpACE.combiScheme import CombiScheme
-    cs = CombiScheme(dim)
+    sibling = None
+    if prelude is not None:
+        pcs, pstate, pscheme = run_prelude(ctx, drv, prelude)
+        ctx.count("prelude_" + prelude["mode"] + ("_same_levels" if (prelude["lmin"], prelude["lmax"]) == (lmin, lmax) else ""))
+        if prelude["mode"] == "reinit":
+            cs = pcs
+        else:
+            sibling = (pcs, pstate, pscheme)
+            cs = CombiScheme(dim)
+    else:
+        cs = CombiScheme(dim)
     cs.init_adaptive_combi_scheme(lmax, lmin)
     import random as _random
     if obs_seed is None:
@@ -131,6 +178,8 @@ def run_history(ctx, drv, dim, lmin, lmax, ops=None, nops=0, obs_seed=None):
     obs_rng = _random.Random(obs_seed)
     obs_prob = obs_rng.choice([1.0, 0.5, 0.25, 0.0])
     case = {"dim": dim, "lmin": lmin, "lmax": lmax, "ops": [], "obs_seed": obs_seed}
+    if prelude is not None:
+        case["prelude"] = prelude
     r = drv.ask("init %d %d %d" % (dim, lmax, lmin))
     ok = True
 
@@ -187,6 +236,13 @@ def run_history(ctx, drv, dim, lmin, lmax, ops=None, nops=0, obs_seed=None):
                 ok = False
         if not ok:
             break
+    if sibling is not None and ok:
+        # the earlier scheme object is still alive: nothing the newer object did may have changed it
+        pcs, pstate, pscheme = sibling
+        compare("sibling-state", impl_state(pcs), pstate)
+        compare("sibling-scheme", fmt_scheme(impl_scheme(pcs)), pscheme)
+        if not oracle(ctx, pcs, prelude["dim"], prelude["lmin"], dict(case, ops=list(case["ops"]), observed="sibling")):
+            ok = False
     return ok, case
 
 
@@ -202,7 +258,8 @@ def run(ctx):
         if ctx.time_left(budget) < 0:
             break
         dim, lmin, lmax, nops = gen_history(ctx, thorough)
-        ok, case = run_history(ctx, drv, dim, lmin, lmax, None, nops)
+        prelude = gen_prelude(ctx, dim, lmin, lmax) if ctx.rng.random() < 0.35 else None
+        ok, case = run_history(ctx, drv, dim, lmin, lmax, None, nops, prelude=prelude)
         ctx.count("dim_%d" % dim)
         ctx.count("span_%d" % (lmax - lmin))
         ctx.case(case, nontrivial=(dim >= 2 or len(case["ops"]) > 0), sample=case if k < 2 else None)
@@ -213,7 +270,7 @@ def run(ctx):
 def replay(ctx, rp):
     case = rp["case"]
     drv = ctx.driver("drv_c01")
-    ok, _ = run_history(ctx, drv, case["dim"], case["lmin"], case["lmax"], case.get("ops", []), obs_seed=case.get("obs_seed"))
+    ok, _ = run_history(ctx, drv, case["dim"], case["lmin"], case["lmax"], case.get("ops", []), obs_seed=case.get("obs_seed"), prelude=case.get("prelude"))
     print("replay: %s" % ("property holds and model agrees on this case" if ok else "REPRODUCED"))
     for v in ctx.violations[:3]:
         print("  violation:", v["probe"], v["detail"])
